@@ -144,6 +144,7 @@ def run_stop_window(sc):
 
 class C12(PropBase):
     id = 'C12'
+    address_change = 0.15
     rx_only_gaps = 0.1
     partial_passes = 0.25
     rx_only_passes = 0.4
